@@ -1106,3 +1106,19 @@ mut("two_level_stale_block_handle", ["C04"], "PAIR-12", patch="two_level_stale_b
 mut("open_schedules_before_gc", ["C11"], "ORD-16", patch="open_schedules_before_gc.diff",
     note="a compaction scheduled before the opener's GC can re-issue an orphan's file number, which the opener then unlinks")
 mut("new_iterator_memtable_before_lock", ["C04", "C05", "C03"], "LCK-", patch="new_iterator_memtable_before_lock.diff")
+
+# ---- ORD-8c running maximum; AGR-1 header; PAIR-12 in C13
+mut("recovered_sequence_is_the_last_logs_not_the_maximum", ["C06", "C02", "C01"], "ORD-8c", file="src/db.rs",
+    old="""            if last_sequence_seen > max_sequence_num_seen {
+                max_sequence_num_seen = last_sequence_seen;
+            }""",
+    new="""            max_sequence_num_seen = last_sequence_seen;""", note="an empty last WAL resets the recovered sequence to 0")
+benign("recovered_sequence_by_cmp_max", ["C06", "C02", "C01"], "src/db.rs",
+    old="""            if last_sequence_seen > max_sequence_num_seen {
+                max_sequence_num_seen = last_sequence_seen;
+            }""",
+    new="""            max_sequence_num_seen = std::cmp::max(max_sequence_num_seen, last_sequence_seen);""")
+mut("bloom_probes_clamped_only_in_the_loop", ["C14"], "AGR-1", patch="bloom_probes_clamped_only_in_the_loop.diff",
+    note="header byte says 31..44 probes, 30 are set: the reader reports added keys as absent for bits_per_key >= 45")
+mut("l0_count_hoisted_out_of_wait_loop", ["C09"], "LCK-4c", patch="l0_count_hoisted_out_of_wait_loop.diff",
+    note="the level-0 file count is read once before the stall loop: a writer stalled on 12 level-0 files is never released")
